@@ -400,14 +400,16 @@ def twin_sweep(t1, t2):
 
 
 def deep_line(t, rng, n):
-    """Many live mocks in ONE context (every callback must stay retained), builder dropped, GC, every method called."""
+    """Many mocks in ONE context — every method of a wide interface once, then re-mocks up to `n` in total (so that any
+    bounded / re-allocated callback store has long dropped the older live ones) — builder dropped, GC, every method called."""
     srt = sorted_methods(t['decl'])
     pos = list(range(len(srt)))
     for i in range(len(pos) - 1, 0, -1):
         j = rng.below(i + 1)
         pos[i], pos[j] = pos[j], pos[i]
+    seq = pos + [pos[rng.below(len(pos) // 3)] for _ in range(max(0, n - len(pos)))]    # re-mocks hit only a third of the methods
     line = f'c07.hist {T_tok(t)} V:{t["id"]}:0'
-    for k, p_ in enumerate(pos[:n]):
+    for k, p_ in enumerate(seq[:max(n, len(pos))]):
         line += f' ap:0:0:{srt[p_]}:{k}'
     return line + ' ca:0 dr:0 gc ca:0 wd:0'
 
@@ -729,7 +731,7 @@ def run_impl(binary, ops, tag='c07', chunk=60):
         res = {}
         start = lo
         tries = 0
-        while start < hi and tries < 40:
+        while start < hi and tries < (hi - lo) + 5:
             tries += 1
             rc, log, got, _ = probe(start, hi, 'a', 1800)         # typical chunk: 1-3 s
             last = start - 1
@@ -832,8 +834,8 @@ def run(tier):
             ops.append(wide_sweep(t, hr))
             lanes['wide'] = lanes.get('wide', 0) + 1
     for t in wide[:1 if tier == 'quick' else 4]:   # many live mocks in one context, builder dropped, GC (retained must not be bounded)
-        for n_ in ((70,) if tier == 'quick' else (40, 70, 100)):
-            ops.append(deep_line(t, hr, min(n_, len(t['decl']))))
+        for n_ in ((300,) if tier == 'quick' else (150, 300, 700)):
+            ops.append(deep_line(t, hr, n_))
             lanes['deep'] = lanes.get('deep', 0) + 1
     for i in range(0, len(twins), 2):          # same-named local types
         ops.append(twin_sweep(twins[i], twins[i + 1]))
@@ -974,6 +976,8 @@ def shrink(binary, line, hint):
         return 'c07.hist ' + ' '.join(head + res)
 
     def fails(cand):
+        if f14_pattern(cand) or two_builder_pattern(cand) or reset_again_pattern(cand) or shadow_pattern(cand):
+            return False                                               # never shrink into the input class of a known finding
         impl, path, _ = run_impl(binary, [cand], tag='c07-shrink', chunk=1)
         model, _ = run_model(path, tag='c07-shrink')
         if not model or model[0] in ('unmodelled', 'bad-op'):      # stay inside the modelled fragment of histories
